@@ -9,6 +9,9 @@ CHECKS = {
  "C14": ("Bounded exhaustive exploration: every string up to length 4 (quick) / 5 (thorough) over a 50-character lexical alphabet, every byte-extended string up to length 3/4 and every concatenation of up to 2/3 (core: 3/4) lexeme fragments is lexed by both real lexers and by an independent reference lexer; token kinds, payloads, suffix types, spans, lines, columns and error codes are compared three ways. This is the right level because the property is a for-all-strings claim about two hand-written scanners whose bugs live at 2-5 character inputs.",
          "Trusted: the reference lexer engine/src/model/reflex.rs (transcribed from docs/errors.md, docs/syntax.md and the repository's pinned tests). Not covered: strings above the bounds, characters outside the alphabets.",
          "explicit-state enumeration of all inputs up to a length bound, three-way differential against a reference model", "5 (C14), appendix A"),
+ "C15": ("Bounded exhaustive exploration of the real second-generation lexer, parser, header extraction and XML dumps: all byte strings up to length 3 (quick) / 4 (thorough) over a 55-symbol byte-extended alphabet, all concatenations of up to 2/3 lexeme fragments, all token sequences up to length 3/4 over 62 token kinds, a viable-prefix breadth-first search (prefixes the parser has not yet rejected, extended by every token) to depth 6/8 from the empty input and 4/6 further tokens from 13 non-initial contexts, 34 density/nesting pumps at up to 10/16 repetition counts and 9/12 limit probes. Oracle: no panic, crash or timeout in any state; inputs with an illegal lexeme (reference lexer) are rejected; legal lexemes never produce lexical errors; resource limits give exactly E102/E103; well-formed pump programs are accepted.",
+         "Trusted: reference lexer (model/reflex.rs); debug assertions, bounds and overflow checks of the checked build as the memory-safety monitor. Uninitialised in-bounds reads are outside what an enumerator can observe. Not covered: inputs beyond the bounds.",
+         "explicit-state breadth-first enumeration of inputs (viable-prefix search over token sequences) with a totality invariant and a reference lexer", "5 (C15)"),
 }
 
 NOT_YET = {}
